@@ -242,8 +242,19 @@ def perms_of(spec, rng, tier):
     js = spec["jset"]
     allp = list(itertools.permutations(js))
     if tier == "quick" and len(allp) > 3:
-        return [list(p) for p in rng.sample(allp, 3)]
-    return [list(p) for p in allp]
+        out = [list(p) for p in rng.sample(allp, 3)]
+    else:
+        out = [list(p) for p in allp]
+    if len(js) >= 2:
+        # a directory named more than once: its right-most mention decides its priority
+        for p in (allp if tier != "quick" else rng.sample(allp, min(2, len(allp)))):
+            p = list(p)
+            out.append(p + [p[0]])
+            q = list(p)
+            q.insert(rng.randrange(len(q) + 1), rng.choice(p))
+            if q not in out:
+                out.append(q)
+    return out
 
 
 # ---------------------------------------------------------------- building the tree
@@ -587,7 +598,7 @@ def norm(s, T):
 
 def run(rep):
     rep.rule = ("generated directory trees: the same file names duplicated across the importer's directory, "
-                "up to three -J directories (all orders; 3 sampled orders per tree in quick) and sub-directories; "
+                "up to three -J directories (all orders; 3 sampled orders per tree in quick; orders with a directory named twice) and sub-directories; "
                 "import strings spelled plain / ./ / sub/../ / ../dir/ / through a directory symlink / absolute; "
                 "file symlinks, broken and looping links, directories in place of files, non-Jsonnet and binary "
                 "content (invalid UTF-8) for importstr/importbin, nested imports and import cycles; non-trivial = "
@@ -613,6 +624,8 @@ def run(rep):
         for sp in CORPUS:
             for jl in [list(p) for p in itertools.permutations(sp["jset"])]:
                 work.append((sp, jl))
+                if len(jl) >= 2:
+                    work.append((sp, jl + [jl[0]]))
         for _ in range(ntrees):
             sp = gen_spec(rep.rng, can_chmod)
             for jl in perms_of(sp, rep.rng, rep.tier):
